@@ -463,7 +463,8 @@ class Interpolation(object):
 
         This method applies, in principle, the Newton method to find the root;
         however, if conditions are such that Newton method may not bei properly
-        behaving or converging, then it switches to the linear Interpolation
+        behaving or converging (or it would leave the interval that currently
+        brackets the root), then it switches to the linear Interpolation
         method.
 
         If values xl, xh are not given, the limits of the interpolation table
@@ -537,6 +538,7 @@ class Interpolation(object):
             x = (xl + xh) / 2.0  # Start in the middle of interval
             y = self.__call__(x)
             num_iter = 0  # Count the number of iterations
+            side = 0  # Limit replaced by the previous linear interpolation
             while abs(y) > self._tol:
                 if num_iter >= max_iter:
                     raise ValueError(
@@ -546,24 +548,30 @@ class Interpolation(object):
                 num_iter += 1
                 yp = self.derivative(x)
                 # If derivative is too small, switch to linear interpolation
-                if abs(yp) < 1e-3:
-                    x = (xl * yh - xh * yl) / (yh - yl)
-                    y = self.__call__(x)
-                else:
-                    x = x - y / yp
-                    # Check if x is within limits
-                    if x < xmin or x > xmax:
-                        # Switch to linear interpolation
-                        x = (xl * yh - xh * yl) / (yh - yl)
-                        y = self.__call__(x)
-                    else:
-                        y = self.__call__(x)
+                linear = abs(yp) < 1e-3
+                if not linear:
+                    xn = x - y / yp
+                    # Check if x stays within the limits bracketing the root
+                    linear = xn <= xl or xn >= xh
+                if linear:
+                    # Switch to linear interpolation
+                    xn = (xl * yh - xh * yl) / (yh - yl)
+                x = xn
+                y = self.__call__(x)
                 if (y * yl) >= 0.0:
                     xl = x
                     yl = y
+                    # If xh survives two linear steps in a row, halve its
+                    # ordinate ('Illinois' rule) so it can not be kept forever
+                    if linear and side == -1:
+                        yh = yh / 2.0
+                    side = -1 if linear else 0
                 else:
                     xh = x
                     yh = y
+                    if linear and side == 1:
+                        yl = yl / 2.0
+                    side = 1 if linear else 0
             return x
         else:
             raise TypeError("Invalid input value")
